@@ -5389,8 +5389,9 @@ def unfold_part_alignment(part, alignment):
 
     best_idx = np.where(coverage == coverage.max())[0]
 
-    if len(best_idx) > 1:
-        best_idx = best_idx[unfolded_part_length[best_idx].argmin()]
+    # among the variants with the best coverage (possibly a single one) take
+    # the shortest
+    best_idx = best_idx[unfolded_part_length[best_idx].argmin()]
 
     # append "-1" to alignment if the score_id's in alignment
     if not any(["-1" in al.get("score_id", "") for al in alignment]):
